@@ -4,6 +4,7 @@
 # This module is part of Mako and is released under
 # the MIT License: http://www.opensource.org/licenses/mit-license.php
 from argparse import ArgumentParser
+from os.path import basename
 from os.path import dirname
 from os.path import isfile
 import sys
@@ -77,6 +78,10 @@ def cmdline(argv=None):
         try:
             template = Template(
                 filename=filename,
+                # with the parent directory as the lookup root, the
+                # template's URI is its name under that root, so that
+                # relative includes resolve next to it
+                uri=None if options.template_dir else "/" + basename(filename),
                 lookup=lookup,
                 output_encoding=output_encoding,
             )
